@@ -248,41 +248,130 @@ def translate() -> tuple[str, dict]:
     gaf = _find(tree.body, ast.FunctionDef, 'get_arch_filename')
     gp = [a.arg for a in gaf.args.args]
     gb = _body(gaf)
-    if len(gp) != 2 or len(gb) != 1 or not isinstance(gb[0], ast.If) or ast.unparse(gb[0].test) != f'{gp[1]} is None' \
-            or len(gb[0].body) != 1 or len(gb[0].orelse) != 1 or not isinstance(gb[0].body[0], ast.Return) or not isinstance(gb[0].orelse[0], ast.Return):
-        raise TranslateError('get_arch_filename: expected `if index is None: return ... else: return ...`')
-    r_dir, r_num = gb[0].body[0].value, gb[0].orelse[0].value
-    if not (isinstance(r_dir, ast.BinOp) and isinstance(r_dir.op, ast.Add) and isinstance(r_dir.left, ast.Name) and r_dir.left.id == gp[0]):
+    if len(gp) != 2:
+        raise TranslateError('get_arch_filename: (prefix, index) expected')
+
+    def index_none_test(t):
+        """`index is None` -> True, `index is not None` -> False (also under `not`); anything else is not understood"""
+        if isinstance(t, ast.UnaryOp) and isinstance(t.op, ast.Not):
+            return not index_none_test(t.operand)
+        if isinstance(t, ast.Compare) and len(t.ops) == 1 and isinstance(t.left, ast.Name) and t.left.id == gp[1] \
+                and isinstance(t.comparators[0], ast.Constant) and t.comparators[0].value is None:
+            if isinstance(t.ops[0], (ast.Is, ast.Eq)):
+                return True
+            if isinstance(t.ops[0], (ast.IsNot, ast.NotEq)):
+                return False
+        raise TranslateError('get_arch_filename: the test is not `index is None` / `index is not None`')
+
+    def returned(stmts, index_is_none: bool):
+        """the expression returned when the index is / is not None: if/else, early return + fall-through, conditional expression"""
+        for st in stmts:
+            if isinstance(st, ast.Return) and st.value is not None:
+                v = st.value
+                while isinstance(v, ast.IfExp):
+                    v = v.body if index_none_test(v.test) == index_is_none else v.orelse
+                return v
+            if isinstance(st, ast.If):
+                r = returned(st.body if index_none_test(st.test) == index_is_none else st.orelse, index_is_none)
+                if r is not None:
+                    return r
+                continue
+            raise TranslateError(f'line {st.lineno}: get_arch_filename: statement {ast.unparse(st)[:60]!r} not understood')
+        return None
+    r_dir, r_num = returned(gb, True), returned(gb, False)
+    if r_dir is None or r_num is None:
+        raise TranslateError('get_arch_filename: does not return a name in both cases')
+
+    def pieces(e) -> list:
+        """a name expression as a list of literal strings, 'P' (the prefix) and ('I', format spec) (the index): `a + b`, f-strings,
+        `'...'.format(...)`"""
+        if isinstance(e, ast.Constant) and isinstance(e.value, str):
+            return [e.value] if e.value else []
+        if isinstance(e, ast.Name) and e.id == gp[0]:
+            return ['P']
+        if isinstance(e, ast.BinOp) and isinstance(e.op, ast.Add):
+            return pieces(e.left) + pieces(e.right)
+        if isinstance(e, ast.JoinedStr):
+            out = []
+            for v in e.values:
+                if isinstance(v, ast.Constant):
+                    out += pieces(v)
+                elif isinstance(v, ast.FormattedValue) and isinstance(v.value, ast.Name) and v.conversion == -1:
+                    if v.format_spec is None:
+                        spec = ''
+                    elif isinstance(v.format_spec, ast.JoinedStr) and all(isinstance(x, ast.Constant) for x in v.format_spec.values):
+                        spec = ''.join(x.value for x in v.format_spec.values)
+                    else:
+                        raise TranslateError('get_arch_filename: computed format spec')
+                    if v.value.id == gp[0] and spec == '':
+                        out.append('P')
+                    elif v.value.id == gp[1]:
+                        out.append(('I', spec, v.lineno))
+                    else:
+                        raise TranslateError('get_arch_filename: f-string field is neither the prefix nor the index')
+                else:
+                    raise TranslateError('get_arch_filename: f-string piece not understood')
+            return out
+        if isinstance(e, ast.Call) and isinstance(e.func, ast.Attribute) and e.func.attr == 'format' and isinstance(e.func.value, ast.Constant) \
+                and isinstance(e.func.value.value, str):
+            import string
+            pos = list(e.args)
+            kw = {k.arg: k.value for k in e.keywords}
+            if None in kw:
+                raise TranslateError('get_arch_filename: **kwargs in format()')
+            out, auto = [], 0
+            for lit, field, spec, conv in string.Formatter().parse(e.func.value.value):
+                if lit:
+                    out.append(lit)
+                if field is None:
+                    continue
+                if conv is not None or (spec and '{' in spec):
+                    raise TranslateError('get_arch_filename: conversion / nested spec in format()')
+                if field == '':
+                    arg = pos[auto] if auto < len(pos) else None
+                    auto += 1
+                elif field.isdigit():
+                    arg = pos[int(field)] if int(field) < len(pos) else None
+                else:
+                    arg = kw.get(field)
+                if not isinstance(arg, ast.Name):
+                    raise TranslateError('get_arch_filename: format() argument not understood')
+                if arg.id == gp[0] and not spec:
+                    out.append('P')
+                elif arg.id == gp[1]:
+                    out.append(('I', spec or '', e.lineno))
+                else:
+                    raise TranslateError('get_arch_filename: format() field is neither the prefix nor the index')
+            return out
+        raise TranslateError(f'get_arch_filename: name expression {ast.unparse(e)[:60]!r} not understood')
+
+    def merge(ps: list) -> list:
+        out: list = []
+        for x in ps:
+            if isinstance(x, str) and x not in ('P',) and out and isinstance(out[-1], str) and out[-1] != 'P':
+                out[-1] += x
+            else:
+                out.append(x)
+        return out
+    pd, pn = merge(pieces(r_dir)), merge(pieces(r_num))
+    if not (len(pd) == 2 and pd[0] == 'P' and isinstance(pd[1], str) and pd[1] != 'P'):
         raise TranslateError('get_arch_filename: directory name is not prefix + <literal>')
-    dir_suffix = _lit(r_dir.right, 'get_arch_filename')
-    if not isinstance(r_num, ast.JoinedStr):
-        raise TranslateError('get_arch_filename: numbered name is not an f-string')
-    vals = list(r_num.values)
-    def is_fv(v, name):
-        return isinstance(v, ast.FormattedValue) and isinstance(v.value, ast.Name) and v.value.id == name and v.conversion == -1
-    if not vals or not is_fv(vals[0], gp[0]) or vals[0].format_spec is not None:
-        raise TranslateError('get_arch_filename: f-string does not start with {prefix}')
-    vals = vals[1:]
+    dir_suffix = pd[1]
+    if not (pn and pn[0] == 'P'):
+        raise TranslateError('get_arch_filename: numbered name does not start with the prefix')
+    rest = pn[1:]
     sep = ''
-    if vals and isinstance(vals[0], ast.Constant):
-        sep = _lit(vals[0], 'f-string')
-        vals = vals[1:]
-    if not vals or not is_fv(vals[0], gp[1]):
-        raise TranslateError('get_arch_filename: f-string has no {index...} after the separator')
-    fs = vals[0].format_spec
-    if fs is None:
-        spec = ''
-    elif isinstance(fs, ast.JoinedStr) and len(fs.values) == 1 and isinstance(fs.values[0], ast.Constant):
-        spec = fs.values[0].value
-    else:
-        raise TranslateError('get_arch_filename: computed format spec')
-    fill, width = _fmt_spec(spec, r_num.lineno)
-    vals = vals[1:]
+    if rest and isinstance(rest[0], str):
+        sep, rest = rest[0], rest[1:]
+    if not rest or not isinstance(rest[0], tuple):
+        raise TranslateError('get_arch_filename: no index after the separator')
+    fill, width = _fmt_spec(rest[0][1], rest[0][2])
+    rest = rest[1:]
     ext = ''
-    if vals:
-        if len(vals) != 1:
-            raise TranslateError('get_arch_filename: unexpected f-string pieces after {index}')
-        ext = _lit(vals[0], 'f-string')
+    if rest:
+        if len(rest) != 1 or not isinstance(rest[0], str):
+            raise TranslateError('get_arch_filename: unexpected pieces after the index')
+        ext = rest[0]
 
     # ---------------- call sites
     fread = _find(nm.finfo.body, ast.FunctionDef, 'read')
@@ -305,6 +394,14 @@ def translate() -> tuple[str, dict]:
         if isinstance(n, ast.Name) and n.id == 'get_arch_filename' and isinstance(n.ctx, ast.Load):
             if not any(isinstance(c, ast.Call) and c.func is n for c in ast.walk(tree)):
                 raise TranslateError(f'line {n.lineno}: get_arch_filename used other than by a direct call')
+    # the read side by symbolic execution of FileInfo.read / verify (translate/c13_place.py): for an entry stored in an archive the bytes
+    # come from open(os.path.join(<vpk>.folder, get_arch_filename(<prefix>, self.arch_index)), 'rb'), seek(self.offset), read(self.arch_len)
+    from translate import c13_place
+    rd = c13_place.analyse_readers(nm.finfo)
+    rd_ok = all(r['read'] == r['verify'] == ('RNone' if r['alen_zero'] else 'RFooter' if r['idx_none'] else 'RArch') for r in rd['rows'])
+    verify_delegates = not sites['verify'] and rd_ok      # verify() = checksum(self.read()) == self.crc: its site is read()'s
+    if verify_delegates:
+        sites['verify'] = list(sites['read'])
     for k in ('read', 'verify', 'write'):
         if len(sites[k]) != 1:
             raise TranslateError(f'FileInfo.{k}: expected exactly one get_arch_filename call, found {len(sites[k])}')
@@ -328,11 +425,18 @@ def translate() -> tuple[str, dict]:
 
     w_expr, w_idx = site(fwrite, sites['write'][0])
     r_expr, r_idx = site(fread, sites['read'][0])
-    v_expr, v_idx = site(fverify, sites['verify'][0])
+    v_expr, v_idx = site(fread if verify_delegates else fverify, sites['verify'][0])
 
     # index argument: the index written to is the one stored in the entry, the one read is the stored one
-    src_w = [ast.unparse(s) for s in ast.walk(fwrite) if isinstance(s, ast.stmt)]
-    index_args_ok = w_idx == 'arch_index' and 'self.arch_index = arch_index' in src_w and r_idx == 'self.arch_index' and v_idx == 'self.arch_index'
+    # the write side by symbolic execution of FileInfo.write (translate/c13_place.py): the archive opened is
+    # os.path.join(<vpk>.folder, get_arch_filename(<prefix>, <the arch_index argument>)), mode 'ab', the stored index is that argument,
+    # the stored offset is the end of the file before the write, and what is written is exactly the rest of the data
+    from translate import c13_place
+    pw = c13_place.analyse_write(fwrite, c13_place.module_int_consts(tree))
+    arch_rows = [r for r in pw['rows'] if r['dest'] == 'DArch']
+    w_ok = bool(arch_rows) and all(r['off'] == 'OArchEnd' and not r['stored_none'] and r['exact'] for r in arch_rows) and \
+        not any(r['dest'] == 'DOther' for r in pw['rows'])
+    index_args_ok = pw['facts']['index_is_arg'] and w_ok and rd['facts']['index_is_stored'] and rd_ok
 
     # the file that is opened: os.path.join(<vpk>.folder, <the variable holding the name>)
     def opened(fn: ast.FunctionDef, call: ast.Call):
@@ -348,11 +452,13 @@ def translate() -> tuple[str, dict]:
     jw, mw = opened(fwrite, sites['write'][0])
     jr, mr = opened(fread, sites['read'][0])
     jv, mv = opened(fverify, sites['verify'][0])
+    jw, mw = pw['facts']['join_folder'], ('ab' if pw['facts']['mode_append'] else None)
+    jr = jv = rd['facts']['join_folder']
+    mr = mv = 'rb' if rd['facts']['mode_rb'] else None
     join_ok = bool(jw and jr and jv)
     src_r = [ast.unparse(s) for s in ast.walk(fread) if isinstance(s, ast.stmt)]
     src_v = [ast.unparse(s) for s in ast.walk(fverify) if isinstance(s, ast.stmt)]
-    append_ok = mw == 'ab' and 'self.offset = file.seek(0, os.SEEK_END)' in src_w and 'file.write(arch_data)' in src_w \
-        and mr == 'rb' and mv == 'rb' and 'data.seek(self.offset)' in src_r and 'data.seek(self.offset)' in src_v
+    append_ok = mw == 'ab' and w_ok and mr == 'rb' and mv == 'rb' and rd_ok
 
     # script_write: the names only feed os.path.exists / os.stat
     if script:
